@@ -24,6 +24,15 @@ PROP = {
         "GunYu.Props.C19.txn_blocking_sent_once",
         "GunYu.Props.C19.recv_path_reports",
         "GunYu.Props.C19.recv_failed_sends_nothing",
+        "GunYu.Props.C19.acked_batch_executed_in_order",
+        "GunYu.Props.C19.segments_effective_prefix",
+        "GunYu.Props.C19.segments_executed_downward_closed",
+        "GunYu.Props.C19.segments_replay_only_unstored",
+        "GunYu.Props.C19.segments_no_replay_no_duplicate",
+        "GunYu.Props.C19.segments_position_sound",
+        "GunYu.Props.C19.segments_clean_final_equals_spec",
+        "GunYu.Props.C19.stored_position_covered_blocking",
+        "GunYu.Props.C19.stored_position_covered_pipelined_false",
         "GunYu.Props.C19.sender_sends_at_most_three",
     ],
     "expected_facts": EXPECTED_SENDER_FACTS,
@@ -87,9 +96,17 @@ PROP = {
         "(example in Props/C19.lean: sendFunc <true,true> [other, ok] = 2 sends); no double execution follows only because batch2.Dispatch "
         "of a one-node batch fails before anything is submitted (Put error / closed node pipeline) - argued from the code, not proved, "
         "not reachable by the fault injection (faults surface at Receive)",
-        "no cross-segment theorem: each segment (between two sender re-sends/restarts) is ordered on its own; that a re-send repeats a "
-        "suffix and never skips is checked on the real sender by the C19out monitor only (plain mode with redirect following switched off, "
-        "re-sent batches) - the model's `restart` does not constrain what is put next",
+        "composition over segments (Model/ClusterSegments.lean, blocking modes) is proved for EVERY list of segments "
+        "(segments_effective_prefix, segments_position_sound, segments_clean_final_equals_spec, segments_replay_only_unstored, "
+        "segments_no_replay_no_duplicate; segments_executed_downward_closed under the fault model PrefixRun: a cut batch executes per group "
+        "a prefix of its part). The admissibility of a batch there (AppOK: within its range, nothing twice; Complete: an "
+        "acknowledged batch executed everything, per group in order) is the content of the per-segment theorems of ClusterRoute: "
+        "per_key_order_partial (strictly increasing per key) and the bridge acked_batch_executed_in_order (an acknowledged batch's commands "
+        "are, per key, a sublist of the segment's execution log in put order). What is NOT a Lean lemma: the identification of ClusterRoute's "
+        "command ids / keys with stream positions / groups, and that a segment's log holds only commands put in it - by construction, checked on the code by the C19out monitors (per-key order, no gap, "
+        "checkpoint-ahead-of-execution); positions are command indices, not byte offsets",
+        "pipelined modes: the composition statement is false (stored_position_covered_pipelined_false, decide-checked counter-witness "
+        "= C19-F2; reorder = C19-F1); stored_position_covered_stmt is the full statement kept for them",
         "the transaction system T* models txnBatcher (used by bisync); the transactional path of sendCmdsBatch goes through Batch/batch2 with "
         "Put(multi)/Put(exec) that the cluster client drops (one-node constraint, no atomicity): covered by the PLAIN system on traces of the "
         "harness modes stxn/stxnpipe and by C19out, with no theorem of its own about the one-node constraint",
